@@ -305,8 +305,10 @@ class Task:
     def finish(self):
         if not self.wrote_header:
             self.write(b"")
-        if self.chunked_response:
+        if self.chunked_response and self.request.command != "HEAD":
             # not self.write, it will chunk it!
+            # (and not for HEAD: such a response has no body, not even the
+            # terminating chunk)
             self.channel.write_soon(b"0\r\n\r\n")
 
     def write(self, data):
